@@ -185,7 +185,7 @@ func c12both(c *vf.Ctx, t *c12tally, count uint32, hashes [][32]byte, flags []by
 // dropped.  Size-dependent shortcuts (caps on the flag expansion, chunked
 // traversal) only show at this scale.
 func c12giantCase(c *vf.Ctx, i int) {
-	ns := []int{1049180, 1048576 + 1, 2098360, 777777}
+	ns := []int{2098360, 1048576 + 1, 1049180, 777777, 2098360 - 10, 2097152 + 1} // the maximum count first: the quick tier runs the first two
 	n := ns[i%len(ns)]
 	leaves := make([][32]byte, n)
 	for j := range leaves {
@@ -730,7 +730,7 @@ func init() {
 		Streams: []*vf.Stream{
 			{Name: "enum1", Exhaustive: true, N: func(vf.Tier) int { return c12enumVariants * (c12enumMaxCount + 1) * c12enumLists }, Run: c12enum1},
 			{Name: "enum2", N: func(t vf.Tier) int { return t.Sz(4000, c12enum2live()+c12enum2dead()) }, Run: c12enum2},
-			{Name: "giant", MaxCaseSec: 300, N: func(t vf.Tier) int { return t.Sz(2, 4) }, Run: c12giantCase},
+			{Name: "giant", MaxCaseSec: 300, N: func(t vf.Tier) int { return t.Sz(2, 6) }, Run: c12giantCase},
 			{Name: "mutations", Shards: 8, N: func(t vf.Tier) int { return t.Sz(6000, 80000) }, Run: c12mutations},
 			{Name: "deep", Shards: 4, N: func(t vf.Tier) int { return t.Sz(20000, 300000) }, Run: c12deep},
 		},
